@@ -126,7 +126,13 @@ VARIANTS = [
     {"name": "R4 matched entry re-inserted before it is dropped", "file": REG, "expect": "C16.R4",
      "old": "                    temporary_caps.remove((cap_type, cap_url))\n                    self.caps.extend((name, x) for x in temporary_caps)\n",
      "new": "                    self.caps.extend((name, x) for x in temporary_caps)\n                    temporary_caps.remove((cap_type, cap_url))\n"},
+    {"name": "R4 survivors re-added through the prepending add (order reversed)", "file": REG, "expect": "C16.R4",
+     "old": "                    self.caps.extend((name, x) for x in temporary_caps)\n",
+     "new": "                    for survivor in temporary_caps:\n                        self.caps.add(name, survivor)\n"},
     # ---- R4 preserving
+    {"name": "P R4 survivors re-added through add, oldest first", "file": REG, "expect": "silent",
+     "old": "                    self.caps.extend((name, x) for x in temporary_caps)\n",
+     "new": "                    for survivor in reversed(temporary_caps):\n                        self.caps.add(name, survivor)\n"},
     {"name": "P R4 nested ifs and renamed local", "file": REG, "expect": "silent",
      "old": "                if cap_type == CapType.TEMPORARY and consume:\n                    # Resolving a temporary cap pops it out of the dict\n" + _TEMP,
      "new": "                if consume:\n                    if cap_type == CapType.TEMPORARY:\n"
@@ -173,6 +179,14 @@ VARIANTS = [
                 "            elif cap_data.cap_name == \"EventQueueGet\":"}]},
     {"name": "R5 response reads another metadata key", "file": HEM, "expect": "C16.R5",
      "old": "for cap_name in flow.metadata['needed_proxy_caps']:", "new": "for cap_name in flow.metadata['proxy_caps']:"},
+    {"name": "R5 strip decision from the newest entry of the name only", "file": HEM, "expect": "C16.R5",
+     "old": _REQ_LOOP,
+     "new": '''            granted = cap_data.region().caps
+            for asked in sorted(set(parsed_seed)):
+                if asked in granted and granted[asked][0] == CapType.PROXY_ONLY:
+                    parsed_seed.remove(asked)
+                    flow.metadata['needed_proxy_caps'].append(asked)
+'''},
     # ---- R5 preserving
     {"name": "P R5 request loop with continue and an alias for the record list", "file": HEM, "expect": "silent",
      "old": "            flow.metadata['needed_proxy_caps'] = []\n" + _REQ_LOOP + "            if flow.metadata['needed_proxy_caps']:",
@@ -185,23 +199,34 @@ VARIANTS = [
                 needed.append(cap_name)
                 parsed_seed.remove(cap_name)
             if needed:'''},
-    {"name": "P R5 request loop over a copy of the requested names", "file": HEM, "expect": "silent",
-     "old": _REQ_LOOP,
+    {"name": "P R5 request loop over a copy of the requested names, every entry of the name consulted", "file": HEM,
+     "expect": "silent", "old": _REQ_LOOP,
      "new": '''            region_caps = cap_data.region().caps
             for wanted_cap_name in list(parsed_seed):
-                known_cap_type, _ = region_caps.get(wanted_cap_name, (None, None))
-                if known_cap_type == CapType.PROXY_ONLY:
+                if any(entry_type == CapType.PROXY_ONLY for entry_type, _url in region_caps.getall(wanted_cap_name, ())):
                     parsed_seed.remove(wanted_cap_name)
                     flow.metadata['needed_proxy_caps'].append(wanted_cap_name)
 '''},
     {"name": "P R5 response wrapper loop with early continue", "file": HEM, "expect": "silent",
      "old": "                    if cap_name in parsed:\n                        parsed[cap_name] = region.register_wrapper_cap(cap_name)",
      "new": "                    if cap_name not in parsed:\n                        continue\n                    parsed[cap_name] = region.register_wrapper_cap(cap_name)"},
+    # ---- R6 breaking
+    {"name": "R6 wrapper host derived from the region handle", "file": REG, "expect": "C16.R6",
+     "old": 'seed_id = self.caps["Seed"][1].split("/")[-1].encode("utf8")', "new": 'seed_id = str(self.handle).encode("utf8")'},
+    {"name": "R6 proxy-only URL derived from the cap name", "file": REG, "expect": "C16.R6",
+     "old": 'cap_url = f"http://{uuid.uuid4()!s}.caps.hippo-proxy.localhost"',
+     "new": 'cap_url = f"http://{name.lower()}.caps.hippo-proxy.localhost"'},
+    # ---- R6 preserving
+    {"name": "P R6 wrapper host hashed from the whole Seed URL", "file": REG, "expect": "silent",
+     "old": 'seed_id = self.caps["Seed"][1].split("/")[-1].encode("utf8")',
+     "new": 'seed_url = self.caps["Seed"][1]\n        seed_id = seed_url.encode("utf8")'},
+    {"name": "P R6 wrapper host from a fresh random id", "file": REG, "expect": "silent",
+     "old": 'seed_id = self.caps["Seed"][1].split("/")[-1].encode("utf8")', "new": 'seed_id = uuid.uuid4().bytes'},
     # ---- documented limits
     {"name": "X only https URLs are tracked (validity filter is value-level)", "file": REG, "expect": "miss",
      "old": "cap_url.startswith('http')", "new": "cap_url.startswith('https')"},
-    {"name": "X wrapper host no longer tied to the region's Seed (wrapper URLs collide across regions)", "file": REG, "expect": "miss",
-     "old": "hashlib.sha256(seed_id).hexdigest()[:16]", "new": "hashlib.sha256(name.encode('utf8')).hexdigest()[:16]"},
+    {"name": "X wrapper host truncated to 2 hex digits (collisions are value-level)", "file": REG, "expect": "miss",
+     "old": "hashlib.sha256(seed_id).hexdigest()[:16]", "new": "hashlib.sha256(seed_id).hexdigest()[:2]"},
     {"name": "X longest-prefix / prefix-related URLs (first match in index order wins)", "file": REG, "expect": "miss",
      "old": "        for cap_url in self._caps_url_lookup.keys():", "new": "        for cap_url in sorted(self._caps_url_lookup.keys(), key=len):"},
 ]
